@@ -32,6 +32,16 @@ def relabel(rng, G):
 
 def near_miss(rng, G):
     H = copy.deepcopy(G)
+    r0 = rng.random()
+    if H.number_of_nodes() and r0 < 0.15:
+        # a placeholder element: "*" is a label like any other for the classification (it must not act as a wildcard)
+        n = rng.choice(list(H.nodes))
+        H.nodes[n]["element"] = "*"
+        return H
+    if H.number_of_nodes() and r0 < 0.25:
+        n = rng.choice(list(H.nodes))
+        H.nodes[n]["element"] = "N" if H.nodes[n]["element"] != "N" else "C"
+        return H
     if H.number_of_edges() and rng.random() < 0.5:
         e = rng.choice(list(H.edges))
         H.edges[e]["order"] = 3 - H.edges[e]["order"]
